@@ -2,9 +2,13 @@
 From Coq Require Extraction.
 From Coq Require Import ExtrOcamlBasic.
 From SQ Require Import lib.Base.
-From SQ Require model.Spsc.
+From SQ Require model.Spsc model.CursorRing model.Worker.
 Extraction Language OCaml.
 
 Definition spsc_run := Spsc.run.
 Definition spsc_judge := Spsc.judge.
-Extraction "../ocaml/gen/C17/model.ml" spsc_run spsc_judge.
+Definition cursor_run := CursorRing.run.
+Definition cursor_judge := CursorRing.judge.
+Definition worker_run := Worker.run.
+Definition worker_judge := Worker.judge.
+Extraction "../ocaml/gen/C17/model.ml" spsc_run spsc_judge cursor_run cursor_judge worker_run worker_judge.
